@@ -647,3 +647,71 @@ def c06_r8(ctx: Ctx, rule):
 
 RULES.setdefault("C06", []).append(Rule("C06.R8", "a backslash-escaping substitution on the PROV-N path escapes only PN_CHARS_ESC characters", 1, c06_r8, "F-TAINT",
                                         "every printed qualified name is a PROV-N qualified name"))
+
+
+# ------------------------------------------------------------------------------------------ C15.R11 node ids are unique in one DOT graph
+def c15_r11(ctx: Ctx, rule):
+    """Graphviz identifies nodes by id.  prov_to_dot numbers its nodes, blank nodes, clusters and annotations ("n%d", "b%d", "c%d",
+    "ann%d"); the counters must live for the whole call - be initialised in prov_to_dot itself - because the helper that draws a
+    bundle is entered once per bundle: counters initialised inside it restart at 1 in every cluster and ids collide."""
+    res = RuleResult()
+    top = DOT + ".prov_to_dot"
+    if top not in ctx.p.functions:
+        raise AnalysisError("anchor vanished: function %s" % top)
+    templates = []
+    in_class = []
+    for q, fi in ctx.p.functions.items():
+        if fi.module == DOT and fi.cls and not isinstance(fi.node, ast.Lambda):
+            # a small counter object: its methods hold the templates, what matters is where the object is created
+            if any(isinstance(n, ast.BinOp) and isinstance(n.op, ast.Mod) and isinstance(n.left, ast.Constant) and isinstance(n.left.value, str) and re.fullmatch(r"[A-Za-z_]+%d", n.left.value) for n in walk_function(fi.node)) or \
+               any(isinstance(n, ast.JoinedStr) and len(n.values) == 2 and isinstance(n.values[1], ast.FormattedValue) for n in walk_function(fi.node)):
+                in_class.append(fi.cls)
+    for cls in sorted(set(in_class)):
+        ctors = [(q, c) for q, fi in ctx.p.functions.items() if fi.module == DOT and not isinstance(fi.node, ast.Lambda) for c in calls_in(fi.node)
+                 if (ctx.p.resolve_dotted(fi.module, c.func) or (None, None))[1] == cls]
+        for q, c in ctors:
+            ok = q == top
+            res.ob("id counters are kept in a %s object created in %s: once per prov_to_dot call: %s" % (cls.rsplit(".", 1)[1], q.rsplit(".", 1)[1], ok))
+            if not ok:
+                res.fail(rule.id, "id-counter-restarts::%s" % cls, ctx.loc(q, c), "the id counter object %s is created in %s, which runs once per bundle" % (cls.rsplit(".", 1)[1], q.rsplit(".", 1)[1]),
+                         "ids restart in every cluster and collide")
+        if not ctors:
+            raise AnalysisError("id counter class %s is never instantiated" % cls)
+    for q, fi in ctx.p.functions.items():
+        if not (q == top or q.startswith(top + ".<locals>.")):
+            continue
+        for n in walk_function(fi.node):
+            tmpl, arg = None, None
+            if isinstance(n, ast.BinOp) and isinstance(n.op, ast.Mod) and isinstance(n.left, ast.Constant) and isinstance(n.left.value, str) and re.fullmatch(r"[A-Za-z_]+%d", n.left.value):
+                tmpl, arg = n.left.value, n.right
+            elif isinstance(n, ast.JoinedStr) and len(n.values) == 2 and isinstance(n.values[0], ast.Constant) and re.fullmatch(r"[A-Za-z_]+", str(n.values[0].value)) and isinstance(n.values[1], ast.FormattedValue):
+                tmpl, arg = str(n.values[0].value) + "%d", n.values[1].value
+            if tmpl:
+                root = arg
+                while isinstance(root, (ast.Subscript, ast.Attribute)):
+                    root = root.value
+                if isinstance(root, ast.Name):
+                    templates.append((q, n, tmpl, root.id))
+    if len(templates) < 3 and not in_class:
+        raise AnalysisError("fewer than 3 numbered id templates found in prov_to_dot")
+    for q, n, tmpl, root in templates:
+        # where is the counter initialised?  the innermost enclosing function (up to prov_to_dot) that binds the name by plain assignment
+        owner, cur = None, q
+        while cur:
+            f = ctx.fn(cur)
+            binds = [a for a in walk_function(f.node) if isinstance(a, ast.Assign) and any(isinstance(x, ast.Name) and x.id == root for t in a.targets for x in ast.walk(t))]
+            nonlocal_here = any(isinstance(a, ast.Nonlocal) and root in a.names for a in walk_function(f.node))
+            if binds and not nonlocal_here:
+                owner = cur
+                break
+            cur = f.parent
+        ok = owner == top
+        res.ob("%s: ids %r are numbered by `%s`, initialised in %s: once per prov_to_dot call: %s" % (q.rsplit(".", 1)[1], tmpl, root, (owner or "?").rsplit(".", 1)[-1], ok))
+        if not ok:
+            res.fail(rule.id, "id-counter-restarts::%s" % tmpl, ctx.loc(q, n), "the counter `%s` behind the ids %r is initialised in %s, which runs once per bundle: ids restart in every cluster" % (root, tmpl, (owner or "?").rsplit(".", 1)[-1]),
+                     "a document with top-level elements and a bundle: the top-level n1 and the bundle's n1 are one node for Graphviz; edges attach to the wrong elements")
+    return res
+
+
+RULES.setdefault("C15", []).append(Rule("C15.R11", "the counters behind node / cluster / annotation ids live for the whole prov_to_dot call", 1, c15_r11, "F-PATH",
+                                        "every element is exactly one node: ids never collide across clusters"))
